@@ -30,6 +30,9 @@ CONSTANTS Committers,     \* set of client ids, each commits Writes[c] times
           WithDrop,       \* BOOLEAN: a DropAll-style block/drain/resume happens
           AtomicSend,     \* TRUE: the blockWrites test and the channel send are one step (what
                           \* Close needs); FALSE: two steps, as db.sendToWriteCh is written
+          DropReads,      \* TRUE: the drop starts a read transaction after draining (DropPrefix:
+                          \* filterPrefixesToDrop -> db.View), which waits until every commit that
+                          \* already has a timestamp has been applied
           SerialCloseDrop \* TRUE: Close does not start while a drop is in progress (what the
                           \* design needs); FALSE: they may overlap, as in the code
 
@@ -188,8 +191,15 @@ DropStopFlush ==
     /\ drop = "drained" /\ batch = <<>> /\ flushQ = 0 /\ flusher = "idle"
     /\ flusherOn' = FALSE /\ drop' = "flushStopped"
     /\ UNCHANGED <<cpc, left, writeCh, chClosed, batch, writerOn, mtFill, flushQ, flusher, l0, compOn, block, close, panic>>
+\* DropPrefix: db.View -> oracle.readTs waits for every stamped commit (a committer that has passed
+\* newCommitTs is in state "checked" or "sent" until its request has been applied)
+DropFilter ==
+    /\ DropReads /\ drop = "flushStopped"
+    /\ \A c \in Committers : cpc[c] \notin {"checked", "sent"}
+    /\ drop' = "filtered"
+    /\ UNCHANGED <<cpc, left, writeCh, chClosed, batch, writerOn, mtFill, flushQ, flusher, flusherOn, l0, compOn, block, close, panic>>
 DropWork ==
-    /\ drop = "flushStopped"
+    /\ drop = (IF DropReads THEN "filtered" ELSE "flushStopped")
     /\ compOn' = FALSE /\ l0' = 0 /\ mtFill' = 0 /\ drop' = "compStopped"
     /\ UNCHANGED <<cpc, left, writeCh, chClosed, batch, writerOn, flushQ, flusher, flusherOn, block, close, panic>>
 DropResume ==
@@ -201,7 +211,7 @@ Next ==
     \/ \E c \in Committers : Check(c) \/ Send(c) \/ Rejected(c)
     \/ WriterTake \/ WriterNil \/ EnsureRoom \/ Apply \/ FlushStart \/ FlushAdd \/ Compact
     \/ CloseBlock \/ CloseStopWriter \/ CloseChan \/ ClosePush \/ CloseStopFlush \/ CloseStopComp
-    \/ DropBlock \/ DropDrain \/ DropStopFlush \/ DropWork \/ DropResume
+    \/ DropBlock \/ DropDrain \/ DropStopFlush \/ DropFilter \/ DropWork \/ DropResume
 
 Spec == Init /\ [][Next]_vars
 \* every goroutine keeps running when it can (weak fairness per action)
@@ -210,7 +220,7 @@ Fairness ==
     /\ WF_vars(WriterTake) /\ WF_vars(EnsureRoom) /\ WF_vars(Apply)
     /\ WF_vars(FlushStart) /\ WF_vars(FlushAdd) /\ WF_vars(Compact)
     /\ WF_vars(CloseStopWriter) /\ WF_vars(CloseChan) /\ WF_vars(ClosePush) /\ WF_vars(CloseStopFlush) /\ WF_vars(CloseStopComp)
-    /\ WF_vars(DropDrain) /\ WF_vars(DropStopFlush) /\ WF_vars(DropWork) /\ WF_vars(DropResume)
+    /\ WF_vars(DropDrain) /\ WF_vars(DropStopFlush) /\ WF_vars(DropFilter) /\ WF_vars(DropWork) /\ WF_vars(DropResume)
 FairSpec == Spec /\ Fairness
 
 -----------------------------------------------------------------------------
